@@ -10,7 +10,7 @@ from ..core import Disc, Subcheck, exc_detail, exc_key
 
 PROPERTY_ID = 'C12'
 LEVEL = 'exploration'
-RULE = ('router: histories of add-rule / remove-rule / deliver-message on MessageRouter; rules constrain any subset of type, '
+RULE = ('In every second router / client case the even-numbered rules register one shared bound method, which must run once per matching rule. router: histories of add-rule / remove-rule / deliver-message on MessageRouter; rules constrain any subset of type, '
         'interface, member, path, path_namespace, destination, argN, argNpath with values drawn from small pools built to '
         'contain matches, near-misses on a single key and sibling paths sharing a textual prefix (/a/b vs /a/bc), argument '
         'paths with and without trailing slash on either side; messages of all four types with bodies that are absent, too '
